@@ -85,6 +85,8 @@ pub mod session {
         pub script: Script,
         /// shared with the harness: the code the driver reset the stream with
         pub reset_log: std::rc::Rc<std::cell::Cell<Option<u64>>>,
+        /// shared with the harness: STOP_SENDING code (session requests discarded because the queue is full)
+        pub stop_log: std::rc::Rc<std::cell::Cell<Option<u64>>>,
     }
 
     impl StreamSession {
@@ -95,24 +97,75 @@ pub mod session {
         pub fn reset(&mut self, error_code: VarInt) {
             self.reset_log.set(Some(error_code.into_inner()));
         }
+
+        pub fn stop(&mut self, error_code: VarInt) -> Result<(), super::biremote::AlreadyStop> {
+            if self.stop_log.get().is_some() {
+                return Err(super::biremote::AlreadyStop);
+            }
+            self.stop_log.set(Some(error_code.into_inner()));
+            Ok(())
+        }
     }
 }
 
 pub mod uniremote {
     use super::*;
 
-    /// model of `driver::streams::uniremote::StreamUniRemoteH3` (the peer's control stream)
+    use crate::error::{StreamReadError, StreamReadExactError};
+
+    /// model of `QuicRecvStream` as used by the QPACK stream runners: `read_exact` results are scripted:
+    /// `oks` successful reads, then the terminating outcome `end` (0 FinishedEarly, 1 NotConnected, 2 Reset, 3 QuicProto)
+    pub struct ModelRecv {
+        pub oks: usize,
+        pub end: u8,
+        pub reset_code: VarInt,
+        pub reads: usize,
+    }
+
+    impl ModelRecv {
+        pub async fn read_exact(&mut self, buf: &mut [u8]) -> Result<(), StreamReadExactError> {
+            let i = self.reads;
+            self.reads += 1;
+            if i < self.oks {
+                return Ok(());
+            }
+            Err(match self.end {
+                0 => StreamReadExactError::FinishedEarly(0),
+                1 => StreamReadExactError::Read(StreamReadError::NotConnected),
+                2 => StreamReadExactError::Read(StreamReadError::Reset(self.reset_code)),
+                _ => StreamReadExactError::Read(StreamReadError::QuicProto),
+            })
+        }
+    }
+
+    /// model of `driver::streams::uniremote::StreamUniRemoteH3` (a peer-opened unidirectional H3 stream)
     pub struct StreamUniRemoteH3 {
         pub script: Script,
+        /// 0 Control, 1 QPackEncoder, 2 QPackDecoder, 3 GREASE (Exercise 0x21)
+        pub kind: u8,
+        pub recv: ModelRecv,
     }
 
     impl StreamUniRemoteH3 {
+        pub fn control(script: Script) -> Self {
+            Self { script, kind: 0, recv: ModelRecv { oks: 0, end: 1, reset_code: VarInt::from_u32(0), reads: 0 } }
+        }
+
         pub async fn read_frame<'a>(&mut self) -> Result<Frame<'a>, ProtoReadError> {
             self.script.next()
         }
 
         pub fn kind(&self) -> StreamKind {
-            StreamKind::Control
+            match self.kind {
+                0 => StreamKind::Control,
+                1 => StreamKind::QPackEncoder,
+                2 => StreamKind::QPackDecoder,
+                _ => StreamKind::Exercise(VarInt::from_u32(0x21)),
+            }
+        }
+
+        pub fn stream_mut(&mut self) -> &mut ModelRecv {
+            &mut self.recv
         }
     }
 }
@@ -164,6 +217,44 @@ pub mod unilocal {
 
         pub fn kind(&self) -> StreamKind {
             StreamKind::Control
+        }
+    }
+}
+
+pub mod biremote {
+    use super::*;
+    use crate::driver::streams::session::StreamSession;
+    use wtransport_proto::session::SessionRequest;
+
+    #[derive(Debug)]
+    pub struct AlreadyStop;
+
+    /// model of `driver::streams::biremote::StreamBiRemoteH3` (a peer-opened request stream): records STOP_SENDING
+    pub struct StreamBiRemoteH3 {
+        /// shared with the harness: the code the driver stopped the stream with
+        pub stop_log: std::rc::Rc<std::cell::Cell<Option<u64>>>,
+        pub reset_log: std::rc::Rc<std::cell::Cell<Option<u64>>>,
+    }
+
+    impl StreamBiRemoteH3 {
+        pub fn stop(&mut self, error_code: VarInt) -> Result<(), AlreadyStop> {
+            if self.stop_log.get().is_some() {
+                return Err(AlreadyStop);
+            }
+            self.stop_log.set(Some(error_code.into_inner()));
+            Ok(())
+        }
+
+        pub fn id(&self) -> crate::StreamId {
+            crate::StreamId::new(VarInt::from_u32(0))
+        }
+
+        pub fn into_session(self, _session_request: SessionRequest) -> StreamSession {
+            StreamSession {
+                script: Script { events: [Ev::NotConnected; SCRIPT_MAX], n: 0, reads: 0 },
+                reset_log: self.reset_log,
+                stop_log: self.stop_log,
+            }
         }
     }
 }
